@@ -57,7 +57,7 @@ SPEC = dict(
     ),
     assumptions=[
         "matrices off the finite alphabet are not covered; m = 4 projection orders on a list of ~120 matrices only",
-        "GradDrop with f = identity only; at an exact tie U_j == P_j neither sign is kept (the published strict inequalities)",
+        "GradDrop with f in {identity, square}; at an exact tie U_j == P_j neither sign is kept (the published strict inequalities)",
         "CAGrad: 'stationarity' is decided up to the aggregator's norm_eps (1e-4 s); matrices with 0 < s < norm_eps are not enumerated",
         "DrawReplayer owns torch.randperm/rand/randn; any other RNG use would surface as a determinism failure",
     ],
@@ -146,6 +146,9 @@ def gen_cases(tier, seed):
             add("graddrop", gsrc, m, n, gN, size=gsize * 4, uset="reduced", leaks=[0, 1, 2, 4] if th else [0, 1, 2, 3, 4], dtype="float64")
         if (m, n) == (2, 2):
             add("graddrop", "ternary", m, n, N, size=12, uset="full", leaks=[0, 3], dtype="float32")
+        # a non-default purity transform f (added after a seeded change - one of the two masks using P instead of f(P) - was missed)
+        if n <= 2 or th:
+            add("graddrop", gsrc, m, n, gN, size=gsize * 2, uset="full" if n <= 2 else "reduced", leaks=[0, 3], dtype="float64", f="square")
         # MGDA
         if full:
             add("mgda", "ternary", m, n, N, mode="base")
@@ -392,6 +395,14 @@ def _run_graddrop(case, acc):
                     acc.dropped += 1
                     acc.count("graddrop-tie-not-constructible(numpy and torch purity differ)")
             percol.append([float(v) for v in vals])
+        fname = case.get("f")
+        fP = P if fname is None else (P * P).astype(npdt)
+        if fname is not None:
+            with torch.no_grad():
+                fPt = torch.square(torch.from_numpy(Pt.copy())).numpy()
+            for j in range(n):
+                if np.isfinite(fP[j]) and float(fP[j]) < 1.0 and fP[j] == fPt[j] and float(fP[j]) not in percol[j]:
+                    percol[j].append(float(fP[j]))
         leaks = _leaks(m)
         for li in case["leaks"]:
             leak = leaks[li]
@@ -403,7 +414,7 @@ def _run_graddrop(case, acc):
                 rp = DrawReplayer([("rand", list(U))])
                 try:
                     with rp:
-                        x = GradDrop(leak=lt)(Jt)
+                        x = (GradDrop(leak=lt) if fname is None else GradDrop(f=torch.square, leak=lt))(Jt)
                 except DrawReplayer.Mismatch as e:
                     raise HarnessError(f"GradDrop draw protocol changed: {e}")
                 except Exception as e:
@@ -429,8 +440,8 @@ def _run_graddrop(case, acc):
                         acc.add_viol("graddrop-nan-on-zero-column" if zc else "bad-output:graddrop", f"{desc}: x={xd.tolist()}")
                     continue
                 Ud = np.array([float(npdt(u)) for u in U])
-                xr = _graddrop_ref(Jd, Ud, P.astype(np.float64), ld)
-                if npdt is np.float64 and not np.array_equal(xr, R.graddrop_ref(Jd, Ud, ld)):
+                xr = _graddrop_ref(Jd, Ud, fP.astype(np.float64), ld)
+                if fname is None and npdt is np.float64 and not np.array_equal(xr, R.graddrop_ref(Jd, Ud, ld)):
                     raise HarnessError(f"the two GradDrop references disagree on {desc}")
                 tol = (TOL_GRADDROP if npdt is np.float64 else 1e-6) * ssc * m
                 e = float(np.abs(xd - xr).max()) / tol if s > 0 else float(np.abs(xd).max())
@@ -439,7 +450,7 @@ def _run_graddrop(case, acc):
                     reported = True
                     acc.add_viol(
                         "graddrop-not-the-sign-dropout" + ("" if leak is None else ":leak"),
-                        f"{desc}: x={xd.tolist()} ref={xr.tolist()} P={P.tolist()}", cls=f"graddrop:{li}:{case['dtype']}",
+                        f"{desc} f={fname}: x={xd.tolist()} ref={xr.tolist()} P={P.tolist()}", cls=f"graddrop:{li}:{case['dtype']}:{fname}",
                     )
                 if any(u == p for u, p in zip(Ud, P.astype(np.float64))):
                     acc.count("graddrop-executions-with-an-exact-tie")
